@@ -19,10 +19,23 @@ type zwObj struct {
 }
 
 type zrObj struct {
+	asrc *arraySrc
 	src Val
 	out *Array
 	pos int
 	n   int
+}
+
+func (z *zrObj) next(m *Machine) (Int, bool) {
+	if z.asrc != nil {
+		if z.asrc.pos >= z.asrc.n {
+			return Int{}, false
+		}
+		v := z.asrc.a.get(z.asrc.pos).(Int)
+		z.asrc.pos++
+		return v, true
+	}
+	return m.readByteFrom(z.src)
 }
 
 func (m *Machine) readByteFrom(src Val) (Int, bool) {
@@ -34,6 +47,7 @@ func (m *Machine) readByteFrom(src Val) (Int, bool) {
 }
 
 type byteAdapter struct {
+	z    *zrObj
 	m    *Machine
 	src  Val
 	push []byte
@@ -46,7 +60,7 @@ func (a *byteAdapter) ReadByte() (byte, error) {
 		a.push = a.push[1:]
 		return b, nil
 	}
-	v, ok := a.m.readByteFrom(a.src)
+	v, ok := a.z.next(a.m)
 	if !ok {
 		return 0, io.EOF
 	}
@@ -73,7 +87,7 @@ func (a *byteAdapter) Read(p []byte) (int, error) {
 func (z *zrObj) fill(m *Machine) Val {
 	var hdr []byte
 	for i := 0; i < 3; i++ {
-		v, ok := m.readByteFrom(z.src)
+		v, ok := z.next(m)
 		if !ok {
 			return mkErr("zlib", "unexpected EOF")
 		}
@@ -86,7 +100,7 @@ func (z *zrObj) fill(m *Machine) Val {
 		return mkErr("zlib", "zlib: invalid header")
 	}
 	if hdr[2]&6 != 0 { // compressed block: must be fully concrete, use the real inflater
-		ad := &byteAdapter{m: m, src: z.src, push: hdr}
+		ad := &byteAdapter{m: m, src: z.src, z: z, push: hdr}
 		zr, err := zlib.NewReader(ad)
 		if err != nil {
 			if ad.sym {
@@ -111,7 +125,7 @@ func (z *zrObj) fill(m *Machine) Val {
 	for {
 		var l [4]byte
 		for i := range l {
-			v, ok := m.readByteFrom(z.src)
+			v, ok := z.next(m)
 			if !ok {
 				return mkErr("zlib", "unexpected EOF")
 			}
@@ -127,7 +141,7 @@ func (z *zrObj) fill(m *Machine) Val {
 		na := newByteArray(z.n + n)
 		copyRange(na, 0, z.out, 0, z.n)
 		for i := 0; i < n; i++ {
-			v, ok := m.readByteFrom(z.src)
+			v, ok := z.next(m)
 			if !ok {
 				return mkErr("zlib", "unexpected EOF")
 			}
@@ -137,7 +151,7 @@ func (z *zrObj) fill(m *Machine) Val {
 		if bh&1 != 0 {
 			break
 		}
-		v, ok := m.readByteFrom(z.src)
+		v, ok := z.next(m)
 		if !ok {
 			return mkErr("zlib", "unexpected EOF")
 		}
@@ -150,7 +164,7 @@ func (z *zrObj) fill(m *Machine) Val {
 		}
 	}
 	for i := 0; i < 4; i++ { // adler32 trailer (not checked by the model)
-		if _, ok := m.readByteFrom(z.src); !ok {
+		if _, ok := z.next(m); !ok {
 			return mkErr("zlib", "unexpected EOF")
 		}
 	}
@@ -173,34 +187,7 @@ func (m *Machine) zlibIntrinsic(name string, args []Val) (Val, bool) {
 		return Tuple{goInt(n), nil}, true
 	case "(*compress/zlib.Writer).Close":
 		z := args[0].(*zwObj)
-		var stream *Array
-		if !z.data.hasSym(0, z.n) {
-			var out bytes.Buffer
-			zw, _ := zlib.NewWriterLevel(&out, 9)
-			zw.Write(z.data.b[:z.n])
-			zw.Close()
-			stream = &Array{isByte: true, b: out.Bytes()}
-		} else {
-			// what compress/flate emits for incompressible data: stored
-			// blocks of 16k, an empty final stored block, Adler-32
-			n := z.n
-			const chunk = 16384
-			nblk := (n + chunk - 1) / chunk
-			stream = newByteArray(2 + 5*nblk + n + 5 + 4)
-			stream.b[0], stream.b[1] = 0x78, 0xda
-			p := 2
-			for off := 0; off < n; off += chunk {
-				l := n - off
-				if l > chunk {
-					l = chunk
-				}
-				copy(stream.b[p:], []byte{0x00, byte(l), byte(l >> 8), ^byte(l), ^byte(l >> 8)})
-				p += 5
-				copyRange(stream, p, z.data, off, l)
-				p += l
-			}
-			copy(stream.b[p:], []byte{0x01, 0x00, 0x00, 0xff, 0xff})
-		}
+		stream := deflateModel(z.data, z.n)
 		sz := stream.size()
 		r := m.invoke(z.dst, "Write", Slice{arr: stream, len: sz, cap: sz}).(Tuple)
 		return r[1], true
@@ -255,4 +242,66 @@ func (m *Machine) zrInvoke(z *zrObj, name string, args []Val) (Val, bool) {
 		return nil, true
 	}
 	return nil, false
+}
+
+// deflateModel is the writer side of the zlib model: the real compressor on
+// concrete bytes, stored blocks as compress/flate emits them for incompressible
+// data on symbolic bytes.
+func deflateModel(data *Array, n int) *Array {
+	if !data.hasSym(0, n) {
+		var out bytes.Buffer
+		zw, _ := zlib.NewWriterLevel(&out, 9)
+		zw.Write(data.b[:n])
+		zw.Close()
+		return &Array{isByte: true, b: out.Bytes()}
+	}
+	const chunk = 16384
+	nblk := (n + chunk - 1) / chunk
+	stream := newByteArray(2 + 5*nblk + n + 5 + 4)
+	stream.b[0], stream.b[1] = 0x78, 0xda
+	p := 2
+	for off := 0; off < n; off += chunk {
+		l := n - off
+		if l > chunk {
+			l = chunk
+		}
+		copy(stream.b[p:], []byte{0x00, byte(l), byte(l >> 8), ^byte(l), ^byte(l >> 8)})
+		p += 5
+		copyRange(stream, p, data, off, l)
+		p += l
+	}
+	copy(stream.b[p:], []byte{0x01, 0x00, 0x00, 0xff, 0xff})
+	return stream
+}
+
+// arraySrc lets the reader model run over a plain byte array (C side).
+type arraySrc struct {
+	a   *Array
+	n   int
+	pos int
+}
+
+// inflateModel decodes one zlib stream from the first n bytes of in and
+// returns the data, the number of input bytes consumed and an error text.
+func inflateModel(in *Array, n int) (out *Array, used int, errText string) {
+	src := &arraySrc{a: in, n: n}
+	z := &zrObj{asrc: src}
+	if e := z.fill(nil); e != nil {
+		return nil, src.pos, errMsgOf(e)
+	}
+	if z.out.size() > z.n {
+		o := newByteArray(z.n)
+		copyRange(o, 0, z.out, 0, z.n)
+		z.out = o
+	}
+	return z.out, src.pos, ""
+}
+
+func errMsgOf(e Val) string {
+	if ifc, ok := e.(Iface); ok {
+		if ne, ok := ifc.v.(*nativeErr); ok {
+			return ne.msg
+		}
+	}
+	return "error"
 }
